@@ -6771,6 +6771,24 @@ impl RelationalEngine {
 
         let row_id = slab_row_id.as_u64() + 1;
 
+        // The new row belongs to this transaction until it ends: lock it like an updated row,
+        // so that no other transaction can update or delete it before the commit or rollback
+        if let Err(info) = self
+            .tx_manager
+            .lock_manager()
+            .try_lock(tx_id, &[(table.to_string(), row_id)])
+        {
+            self.slab()
+                .delete(table, slab_row_id)
+                .map_err(|e| RelationalError::StorageError(e.to_string()))?;
+            return Err(RelationalError::LockConflict {
+                tx_id,
+                blocking_tx: info.blocking_tx,
+                table: info.table,
+                row_id: info.row_id,
+            });
+        }
+
         // Update row counter
         self.row_counters
             .entry(table.to_string())
